@@ -464,8 +464,32 @@ class LockStep:
     def ctl_fw(self, idx, stp, drain):
         out, eng, mdl = self.out, self.eng, self.mdl
         nids, ft, fv, fhex = stp[1:5]
-        fbin = bytes.fromhex(fhex) if fhex is not None else None
         sleeping = frozenset(mdl.sleeping)
+        if isinstance(fhex, str) and fhex.startswith("FILE:"):
+            # update through a firmware FILE that carries no firmware (Intel-HEX without data records, blank, missing):
+            # there is nothing to schedule - the call must leave sessions, reboot flags and loaded firmware alone
+            import os
+            import tempfile
+
+            d = tempfile.mkdtemp(prefix="vf-fw-")
+            path = os.path.join(d, "fw.hex")
+            content = {"eof-only": ":00000001FF\n", "address-only": ":020000040000FA\n:00000001FF\n", "blank": "\n", "empty": "", "missing": None}[fhex[5:]]
+            try:
+                if content is not None:
+                    with open(path, "w", encoding="utf-8") as fh:
+                        fh.write(content)
+                eng.call("fwpath", nids, ft, fv, path, drain=False)
+            finally:
+                if os.path.exists(path):
+                    os.remove(path)
+                os.rmdir(d)
+            out.kinds.append("ctl-fw-file-without-firmware")
+            out.count("fw_files_without_firmware")
+            self.pending[eng.step] = dict(exp=[], kind="ctl-fw", concerned=set(), t=time.time(), burst=None, sleeping=sleeping)
+            if drain:
+                eng.drain()
+            return
+        fbin = bytes.fromhex(fhex) if fhex is not None else None
         err = eng.call("fw", nids, ft, fv, fbin, drain=False)
         st = eng.step
         try:
